@@ -23,23 +23,54 @@ REQUIRES(RD_OK(point, sizeof(*point)) && WR_OK(outlen, sizeof(size_t)) && (out =
 ASSIGNS(*outlen, G_sk_calls, G_sk_last, G_sk_pt; out != NULL && *out != NULL: OBJ_WHOLE(*out), *out)
 ENSURES((RET == 1 || RET == -1) && G_sk_calls == OLD(G_sk_calls) + 1 && G_sk_last == RET && G_sk_pt == (size_t)point)
 ENSURES(RET == 1 IMPLIES *outlen == OLD(*outlen) + 73)
+ENSURES((RET == 1 && out != NULL && OLD(*out) != NULL) IMPLIES (PTR_IN(OLD(*out), *out, OLD(*out) + 73) && *out == OLD(*out) + 73))
+ENSURES(RET != 1 IMPLIES (*outlen == OLD(*outlen) && (out == NULL || *out == OLD(*out))))
 ;
 int tls13_process_server_key_share(const uint8_t *ext_data, size_t ext_datalen, SM2_Z256_POINT *point)
-REQUIRES(ext_datalen <= 65535 && (ext_datalen == 0 || RD_OK(ext_data, ext_datalen)) && (point == NULL || WR_OK(point, sizeof(*point))) && G_fo_calls == 0)
+REQUIRES(ext_datalen <= 65535 && (ext_datalen == 0 || RD_OK(ext_data, ext_datalen)) && (point == NULL || WR_OK(point, sizeof(*point))))
 ASSIGNS(point != NULL: OBJ_UPTO((uint8_t *)point, sizeof(*point)); G_fo_calls, G_fo_last, G_fo_P, G_fo_in, G_fo_inlen)
 ENSURES(RET == 1 || RET == -1)
-ENSURES(RET == 1 IMPLIES (G_fo_calls == 1 && G_fo_last == 1 && G_fo_P == (size_t)point && G_fo_inlen == 65 && ext_datalen == 69 && G_fo_in == (size_t)(ext_data + 4)))
+ENSURES(RET == 1 IMPLIES (G_fo_calls == OLD(G_fo_calls) + 1 && G_fo_last == 1 && G_fo_P == (size_t)point && G_fo_inlen == 65 && ext_datalen == 69 && G_fo_in == (size_t)(ext_data + 4)))
 ;
 int tls13_process_client_key_share(const uint8_t *ext_data, size_t ext_datalen, const SM2_KEY *server_ecdhe_key, SM2_Z256_POINT *client_ecdhe_public,
 	uint8_t **out, size_t *outlen)
 REQUIRES(ext_datalen <= 65535 && (ext_datalen == 0 || RD_OK(ext_data, ext_datalen)) && (server_ecdhe_key == NULL || RD_OK(server_ecdhe_key, sizeof(SM2_KEY))))
 REQUIRES((client_ecdhe_public == NULL || WR_OK(client_ecdhe_public, sizeof(SM2_Z256_POINT))) && (outlen == NULL || WR_OK(outlen, sizeof(size_t))))
-REQUIRES((out == NULL || (WR_OK(out, sizeof(*out)) && (*out == NULL || WR_OK(*out, 73)))) && G_fo_calls == 0 && G_sk_calls == 0)
+REQUIRES(out == NULL || (WR_OK(out, sizeof(*out)) && (*out == NULL || WR_OK(*out, 73))))
 ASSIGNS(client_ecdhe_public != NULL: OBJ_UPTO((uint8_t *)client_ecdhe_public, sizeof(SM2_Z256_POINT)); outlen != NULL: *outlen; out != NULL && *out != NULL: OBJ_WHOLE(*out), *out;
 	G_fo_calls, G_fo_last, G_fo_P, G_fo_in, G_fo_inlen, G_sk_calls, G_sk_last, G_sk_pt)
 ENSURES(RET == 1 || RET == -1)
 /* the first SM2 share is imported (validated) into the caller's point and answered with the server's own public point */
-ENSURES(RET == 1 IMPLIES (G_fo_calls == 1 && G_fo_last == 1 && G_fo_P == (size_t)client_ecdhe_public && G_fo_inlen == 65
-	&& G_sk_calls == 1 && G_sk_last == 1 && G_sk_pt == (size_t)&server_ecdhe_key->public_key))
+ENSURES(RET == 1 IMPLIES (G_fo_calls == OLD(G_fo_calls) + 1 && G_fo_last == 1 && G_fo_P == (size_t)client_ecdhe_public && G_fo_inlen == 65
+	&& G_sk_calls == OLD(G_sk_calls) + 1 && G_sk_last == 1 && G_sk_pt == (size_t)&server_ecdhe_key->public_key))
+/* on success the 73-byte response was appended when a buffer was given */
+ENSURES(RET == 1 IMPLIES *outlen == OLD(*outlen) + 73)
+ENSURES((RET == 1 && out != NULL && OLD(*out) != NULL) IMPLIES (PTR_IN(OLD(*out), *out, OLD(*out) + 73) && *out == OLD(*out) + 73))
+ENSURES((RET != 1 && out != NULL) IMPLIES *out == OLD(*out))
+;
+#endif
+
+#ifdef CONTRACT_TLS13_HELLO_EXTS
+/* TLS 1.3 server: ClientHello extensions → ServerHello extensions in a buffer of server_exts_maxlen bytes */
+int tls13_process_client_supported_versions(const uint8_t *ext_data, size_t ext_datalen, uint8_t **out, size_t *outlen)
+REQUIRES((ext_datalen == 0 || RD_OK(ext_data, ext_datalen)) && WR_OK(outlen, sizeof(size_t)))
+REQUIRES(out == NULL || (WR_OK(out, sizeof(*out)) && (*out == NULL || WR_OK(*out, 6))))
+ASSIGNS(*outlen; out != NULL && *out != NULL: OBJ_WHOLE(*out), *out)
+ENSURES(RET == 1 || RET == -1)
+ENSURES(RET == 1 IMPLIES *outlen == OLD(*outlen) + 6)
+ENSURES((RET == 1 && out != NULL && OLD(*out) != NULL) IMPLIES (PTR_IN(OLD(*out), *out, OLD(*out) + 6) && *out == OLD(*out) + 6))
+ENSURES(RET != 1 IMPLIES (*outlen == OLD(*outlen) && (out == NULL || *out == OLD(*out))))
+;
+#undef CONTRACT_TLS13_HELLO_EXTS
+#define CONTRACT_TLS13_HELLO_EXTS 2
+int tls13_process_client_hello_exts(const uint8_t *exts, size_t extslen, const SM2_KEY *server_ecdhe_key, SM2_Z256_POINT *client_ecdhe_public,
+	uint8_t *server_exts, size_t *server_exts_len, size_t server_exts_maxlen)
+REQUIRES(extslen <= 65535 && (extslen == 0 || RD_OK(exts, extslen)) && RD_OK(server_ecdhe_key, sizeof(SM2_KEY)) && WR_OK(client_ecdhe_public, sizeof(SM2_Z256_POINT)))
+REQUIRES(WR_OK(server_exts_len, sizeof(size_t)) && server_exts_maxlen <= 4096 && (server_exts_maxlen == 0 || WR_OK(server_exts, server_exts_maxlen)))
+REQUIRES(SEPARATE(server_exts, exts) && SEPARATE(server_exts_len, server_exts) && SEPARATE(server_exts_len, exts) && SEPARATE(client_ecdhe_public, server_exts))
+ASSIGNS(OBJ_UPTO((uint8_t *)client_ecdhe_public, sizeof(SM2_Z256_POINT)), *server_exts_len; server_exts_maxlen != 0: OBJ_WHOLE(server_exts);
+	G_fo_calls, G_fo_last, G_fo_P, G_fo_in, G_fo_inlen, G_sk_calls, G_sk_last, G_sk_pt)
+ENSURES(RET == 1 || RET == -1)
+ENSURES(RET == 1 IMPLIES *server_exts_len <= server_exts_maxlen)
 ;
 #endif
